@@ -86,27 +86,39 @@ def verify(pid, src, name):
 
 
 def run(ref, tier='quick', props=None):
+    """With SEEDED_REPO=<scratch worktree of /repo> the patch is applied there and the checks read that tree
+    (VERIF_REPO) and write their evidence and replays to scratch directories - /repo and /verif/evidence stay as
+    they are, so such runs can go on in the background."""
     dest = os.path.join(VERIF, 'seeded', ref)
     meta = json.load(open(os.path.join(dest, 'meta.json')))
     props = props or [meta['property']]
-    code, out = sh('git -C %s status --porcelain --untracked-files=no' % REPO)
+    repo = os.environ.get('SEEDED_REPO') or REPO
+    env = ''
+    if repo != REPO:
+        scratch = os.path.join(VERIF, '.scratch', 'seeded-out')
+        os.makedirs(os.path.join(scratch, 'evidence'), exist_ok=True)
+        os.makedirs(os.path.join(scratch, 'replays'), exist_ok=True)
+        env = 'VERIF_REPO=%s VERIF_EVIDENCE_DIR=%s/evidence VERIF_REPLAY_DIR=%s/replays ' % (repo, scratch, scratch)
+        sh('git -C %s checkout -q --detach %s && git -C %s checkout -- .' % (repo, sh('git -C %s rev-parse HEAD' % REPO)[1].strip(), repo))
+    code, out = sh('git -C %s status --porcelain --untracked-files=no' % repo)
     if out.strip():
-        raise SystemExit('/repo is not clean:\n' + out)
-    code, out = sh('git -C %s apply %s' % (REPO, os.path.join(dest, 'patch.diff')))
+        raise SystemExit('%s is not clean:\n%s' % (repo, out))
+    code, out = sh('git -C %s apply %s' % (repo, os.path.join(dest, 'patch.diff')))
     if code != 0:
         raise SystemExit('patch does not apply: ' + out)
     results = {}
     try:
         for prop in props:
             t = time.time()
-            code, out = sh('timeout 3000 ./check %s %s' % (prop, tier), cwd=VERIF, timeout=3100)
+            code, out = sh(env + 'timeout 3000 ./check %s %s' % (prop, tier), cwd=VERIF, timeout=3100)
             lines = [l for l in out.splitlines() if l.startswith(('VIOLATION', 'KNOWN-FINDING', 'MACHINERY'))]
             detail = [l for l in out.splitlines() if l.strip() and not l.startswith(('VIOLATION', '/repo', '  _DEFAULT'))][-12:]
             results[prop] = {'exit': code, 'caught': code == 1 and any(l.startswith('VIOLATION') for l in lines), 'lines': lines[:6],
                              'detail': detail, 'seconds': round(time.time() - t, 1), 'tier': tier}
     finally:
-        sh('git -C %s checkout -- .' % REPO)
-        sh('git -C %s checkout -- evidence' % VERIF)      # evidence of the unchanged tree stays as committed
+        sh('git -C %s checkout -- .' % repo)
+        if repo == REPO:
+            sh('git -C %s checkout -- evidence' % VERIF)      # evidence of the unchanged tree stays as committed
     path = os.path.join(dest, 'result.json')
     old = json.load(open(path)) if os.path.exists(path) else {}
     old.update(results)
